@@ -225,6 +225,7 @@ def _no_aslr():
     if not _LIBC:
         _LIBC.append(ctypes.CDLL(None, use_errno=True))
     _LIBC[0].personality(0x0040000)
+    _LIBC[0].prctl(1, 9, 0, 0, 0)   # PR_SET_PDEATHSIG = SIGKILL: a run never outlives the worker that started it
 
 
 def run_watch(cmd, d, timeout, env):
